@@ -33,9 +33,10 @@ import (
 var _ = verifRegister("C18", engineC18)
 
 type c18Node struct {
-	kind   byte // f d l p(fifo) s(socket)
+	kind   byte // f d l p(fifo) s(socket) h(regular file with Links > 1)
 	name   string
 	c, m   uint64
+	ino    uint64
 	sub    []*c18Node
 	target []string
 	xattr  bool // symlink node carrying an extended attribute (not part of the model: must never land anywhere)
@@ -53,7 +54,10 @@ var c18Contents = [][]byte{
 	[]byte("BB-two\n"),
 	append(make([]byte, 3000), []byte("tail")...),
 	[]byte("old-content-of-some-length"),
+	[]byte("content whose data pack is deleted from the repository: the download fails"),
 }
+
+const c18BadContent = 5
 
 func c18ContentID(b []byte) uint64 {
 	for i, c := range c18Contents {
@@ -112,6 +116,8 @@ func (n *c18Node) coq() string {
 		return fmt.Sprintf("(NLink %s %s)", c18Name(n.name), c18Path(n.target))
 	case 'p':
 		return fmt.Sprintf("(NSpec %s %d)", c18Name(n.name), n.m)
+	case 'h':
+		return fmt.Sprintf("(NHard %s %d %d %d)", c18Name(n.name), n.c, n.m, n.ino)
 	}
 	return fmt.Sprintf("(NSock %s)", c18Name(n.name))
 }
@@ -306,8 +312,13 @@ func c18SaveTree(ctx context.Context, up restic.BlobSaver, root string, nodes []
 	for i, n := range nodes {
 		nd := data.Node{Name: n.name, ModTime: mt, AccessTime: mt, ChangeTime: mt, Links: 1}
 		switch n.kind {
-		case 'f':
+		case 'f', 'h':
 			nd.Type = data.NodeTypeFile
+			if n.kind == 'h' {
+				nd.Links = 2
+				nd.Inode = 1000 + n.ino
+				nd.DeviceID = 7
+			}
 			nd.Mode = os.FileMode(n.m)
 			nd.Size = uint64(len(c18Contents[n.c]))
 			nd.Content = restic.IDs{}
@@ -413,6 +424,13 @@ func c18GenNode(rng *vrng, name string, depth int, adversarial bool) *c18Node {
 	case r < 35 && depth > 0:
 		return &c18Node{kind: 'd', name: name, m: uint64(rng.pick3(0o755, 0o700, 0o750)), sub: c18GenTree(rng, depth-1, adversarial && rng.chance(50))}
 	case r < 70:
+		switch q := rng.intn(100); {
+		case q < 20: // member of a hard link group (content and mode are those of the inode)
+			ino := uint64(1 + rng.intn(2))
+			return &c18Node{kind: 'h', name: name, c: ino, m: []uint64{0, 0o640, 0o604}[ino], ino: ino}
+		case q < 28: // content that cannot be downloaded
+			return &c18Node{kind: 'f', name: name, c: c18BadContent, m: uint64(rng.pick3(0o644, 0o600, 0o777))}
+		}
 		return &c18Node{kind: 'f', name: name, c: uint64(rng.intn(4)), m: uint64(rng.pick3(0o644, 0o600, 0o777))}
 	case r < 88:
 		return &c18Node{kind: 'l', name: name, target: c18LinkTargets[rng.intn(len(c18LinkTargets))], xattr: rng.chance(35)}
@@ -665,6 +683,28 @@ func c18Regression() []*c18Case {
 			out = append(out, cs)
 		}
 	}
+	// metadata must not be restored through a symlink that is left at the path of a file:
+	// (a) hard link group whose first member is a skipped pre-existing symlink (--overwrite never)
+	for _, ow := range []string{"never", "if-newer", "always"} {
+		cs := base("reg-meta-hardlink-symlink")
+		cs.tree = []*c18Node{{kind: 'h', name: "a", c: 1, m: 0o644, ino: 1}, {kind: 'h', name: "b", c: 1, m: 0o644, ino: 1},
+			d("c", &c18Node{kind: 'h', name: "f", c: 1, m: 0o644, ino: 1})}
+		cs.pre["tgt/a"] = c18Entry{kind: 'l', target: []string{"out", "victim"}}
+		cs.overwrite = ow
+		cs.newer = false
+		out = append(out, cs)
+	}
+	// (b) file whose content cannot be downloaded, symlink at its path
+	for _, del := range []bool{false, true} {
+		cs := base("reg-meta-baddownload-symlink")
+		cs.tree = []*c18Node{{kind: 'f', name: "a", c: c18BadContent, m: 0o644}, f("b"),
+			d("c", &c18Node{kind: 'f', name: "f", c: c18BadContent, m: 0o777})}
+		cs.pre["tgt/a"] = c18Entry{kind: 'l', target: []string{"out", "victim"}}
+		cs.pre["tgt/c"] = c18Entry{kind: 'd', m: 0o755}
+		cs.pre["tgt/c/f"] = c18Entry{kind: 'l', target: []string{"out", "d"}}
+		cs.del = del
+		out = append(out, cs)
+	}
 	// symlink nodes with extended attributes: the attribute must not be set on what the link points to
 	for _, tg := range [][]string{{"out", "victim"}, {"out", "d"}, {"out"}} {
 		cs := base("reg-symlink-xattr")
@@ -736,8 +776,28 @@ func engineC18(c *vctx) error {
 	if err != nil {
 		return err
 	}
+	// the undownloadable content goes into a pack of its own, which is deleted below
+	before := e.repoFiles()
+	var badID restic.ID
 	err = repo.WithBlobUploader(ctx, func(ctx context.Context, up restic.BlobSaverWithAsync) error {
-		blobs := map[uint64]restic.ID{}
+		id, _, _, err := up.SaveBlob(ctx, restic.DataBlob, c18Contents[c18BadContent], restic.ID{}, false)
+		badID = id
+		return err
+	})
+	if err != nil {
+		return fmt.Errorf("saving bad blob: %w", err)
+	}
+	var badPacks []string
+	for name := range e.repoFiles() {
+		if _, ok := before[name]; !ok && strings.HasPrefix(name, "data/") {
+			badPacks = append(badPacks, name)
+		}
+	}
+	if len(badPacks) != 1 {
+		return fmt.Errorf("expected one pack for the bad blob, got %v", badPacks)
+	}
+	err = repo.WithBlobUploader(ctx, func(ctx context.Context, up restic.BlobSaverWithAsync) error {
+		blobs := map[uint64]restic.ID{c18BadContent: badID}
 		for i := 1; i < 4; i++ {
 			id, _, _, err := up.SaveBlob(ctx, restic.DataBlob, c18Contents[i], restic.ID{}, false)
 			if err != nil {
@@ -771,6 +831,9 @@ func engineC18(c *vctx) error {
 		}
 	}
 
+	if err := os.Remove(filepath.Join(e.repo, badPacks[0])); err != nil {
+		return err
+	}
 	for i, cs := range cases {
 		if c.only >= 0 && i != c.only {
 			// keep numbering stable for replay: still emit a placeholder-free run
@@ -843,10 +906,27 @@ func engineC18(c *vctx) error {
 		c.Hist(fmt.Sprintf("pre-symlinks-in-target=%d", min(nlinks, 3)))
 		human := fmt.Sprintf("T=%v tree=%s pre=%s ow=%s newer=%v del=%v sparse=%v inc=%v exc=%v -> err=%v panic=%v outside-changed=%d outside-xattr=%v",
 			cs.T, coqList(trees), c18Brief(pre), cs.overwrite, cs.newer, cs.del, cs.sparse, cs.includes, cs.excludes, rerr != nil, panicked, changedOutside, outX)
-		c.Case(cs.kind, nlinks > 0 || strings.HasPrefix(cs.kind, "adv-tree") || strings.HasPrefix(cs.kind, "reg-"), len(pre)+len(trees), term, human)
+		kind := cs.kind
+		if !strings.HasPrefix(kind, "reg-") {
+			if c18Has(cs.tree, func(n *c18Node) bool { return n.kind == 'f' && n.c == c18BadContent }) {
+				kind = "meta-baddownload"
+			} else if c18Has(cs.tree, func(n *c18Node) bool { return n.kind == 'h' }) {
+				kind = "meta-hardlink"
+			}
+		}
+		c.Case(kind, nlinks > 0 || strings.HasPrefix(cs.kind, "adv-tree") || strings.HasPrefix(cs.kind, "reg-"), len(pre)+len(trees), term, human)
 		_ = os.RemoveAll(root)
 	}
 	return nil
+}
+
+func c18Has(nodes []*c18Node, pred func(*c18Node) bool) bool {
+	for _, n := range nodes {
+		if pred(n) || (n.kind == 'd' && c18Has(n.sub, pred)) {
+			return true
+		}
+	}
+	return false
 }
 
 func c18Brief(w c18World) string {
